@@ -447,9 +447,11 @@ class Flow:
             exits, rets = list(o.b), list(o.r)
             nxt = o.n + o.c
             if cond is not None and nxt:
+                # the round after which the test fails stands for the last round of any run: the values at its start are
+                # the havocked head values, so a run of several rounds adds no new path (and a path that leaves although
+                # the test held would be an artefact)
                 T, F = self.cond(cond, nxt)
                 exits += F
-                exits += self._havoc(T, hv, tag + "'", decl)
             else:
                 exits += nxt
             out = Out(dedupe(exits))
